@@ -222,7 +222,17 @@ class Engine(StmtMixin):
 
         try:
             ab = Abstractor(self.V).run(allf)
-            r = self._check(ab, min(timeout_ms, 4000), retries=False)[0]
+            # quantifiers as Boolean atoms first (their instances are already there: saturate): a quantifier-free query in
+            # equality + datatypes + linear arithmetic, decided in well under a second even with a thousand formulas
+            from .core import _abstract_quant
+
+            s0 = z3.Solver()
+            s0.set("timeout", int(min(timeout_ms, 5000)))
+            for f in ab:
+                s0.add(_abstract_quant(f))
+            r = s0.check()
+            if r != z3.unsat:
+                r = self._check(ab, min(timeout_ms, 4000), retries=False)[0]
         except (z3.Z3Exception, Untranslatable, KeyError):
             r = z3.unknown
         if r == z3.unsat:
@@ -450,7 +460,15 @@ class Engine(StmtMixin):
                     return f
                 finally:
                     self.speclib._ghost = None
-                return opened(_simplify_known(body, g), d - 1)
+                from .core import simp
+
+                return opened(simp(_simplify_known(body, g)), d - 1)
+            if z3.is_app(f) and f.decl().kind() == z3.Z3_OP_ITE and z3.is_bool(f):
+                c0 = z3.simplify(f.arg(0))
+                if z3.is_true(c0):
+                    return opened(f.arg(1), d)
+                if z3.is_false(c0):
+                    return opened(f.arg(2), d)
             return f
 
         return opened(goal, depth)
